@@ -48,6 +48,10 @@ func (e Event) Class() string {
 
 		return s + ")"
 	case "refresh":
+		if e.Fam != 0 {
+			return fmt.Sprintf("refresh(%s,L=%d,fam=%d)", e.C, e.L, e.Fam)
+		}
+
 		return fmt.Sprintf("refresh(%s,L=%d)", e.C, e.L)
 	case "perm":
 		return fmt.Sprintf("perm(%s,%s)", e.C, strings.Join(e.Peers, "+"))
@@ -256,11 +260,25 @@ func (x *Exec) Apply(ev Event) *Viol { //nolint:gocyclo,cyclop,maintidx,gocognit
 			if ev.L >= 0 {
 				b.U32(wire.AttrLifetime, uint32(ev.L)) //nolint:gosec
 			}
+			if ev.Fam == 4 {
+				b.U32(wire.AttrRequestedFamily, 0x01000000)
+			} else if ev.Fam == 6 {
+				b.U32(wire.AttrRequestedFamily, 0x02000000)
+			}
 		})
 		x.Trace = append(x.Trace, ev.String()+"->"+respStr(res))
 		if a == nil {
 			if res.Resp != nil && res.Resp.Class == wire.Success {
 				return x.viol("resp", "refresh-without-allocation-success", ev, respStr(res))
+			}
+
+			return nil
+		}
+		if ev.Fam != 0 && ev.Fam != a.Fam {
+			// RFC 6156: a REQUESTED-ADDRESS-FAMILY that does not match the allocation is refused (443);
+			// a refused Refresh changes nothing (checked by the sweeps and counts that follow)
+			if res.Resp == nil || res.Resp.Class != wire.Error {
+				return x.viol("resp", "refresh-family-mismatch-not-refused", ev, respStr(res))
 			}
 
 			return nil
